@@ -49,6 +49,9 @@ pub mod storage;
 pub mod types;
 /// Utilities.
 pub mod utils;
+/// Verification hooks (only with `--cfg risinglight_verif`).
+#[cfg(risinglight_verif)]
+pub mod verif;
 
 #[cfg(feature = "jemalloc")]
 use tikv_jemallocator::Jemalloc;
